@@ -178,6 +178,9 @@ def check(pm: ProgramModel, ctx: Ctx) -> None:
     cd.report("VOC", "stress-shapes", cd.roundtrip(ctc_model(mb, stress_trees(mb))),
               "constraint shapes that stress normal forms", ("constraint", "constraint-count"))
     cd.large(mb, BINARY_LOGICAL)
+    cd.polarity(mb, BINARY_LOGICAL, "VOC")
+    cd.writer_reuse(mb)
+    cd.reader_reuse(mb)
     from ..interact import Fragment, sweep
     pv = {k: values[k] for k in ("none", "bool", "false", "int", "zero", "float", "float-integral", "empty-str", "str",
                                  "str-true", "str-number", "str-null", "empty-list", "list", "map", "map-keyed-name",
